@@ -32,6 +32,7 @@ func main() {
 }
 
 func realMain(run *hx.Run) {
+	t0 := time.Now()
 	rng := hx.NewRng(run.Seed)
 
 	// constants assumed by theorem build_then_import (NewBlock's shortcuts for empty lists)
@@ -82,7 +83,7 @@ func realMain(run *hx.Run) {
 					}
 				}
 			}
-			c.ownBlockAccepted(run, rt, r, id, seedTag)
+			c.ownBlockAccepted(run, rt, r.Fork(uint64(300+k)), id, seedTag)
 		}
 		// Finalise: Go map loops vs the model's fold
 		for k := 0; k < finPerTree; k++ {
@@ -120,8 +121,10 @@ func realMain(run *hx.Run) {
 	for k := 0; k < knowns; k++ {
 		knownReimport(run, rng.Fork(uint64(5000+k)))
 	}
+	run.Notes["t_main_s"] = time.Since(t0).Seconds()
 	current = "DeriveSha differential"
 	deriveShaChecks(run, rng.Fork(6000))
+	run.Notes["t_derivesha_s"] = time.Since(t0).Seconds()
 	bigs, forkCodes := 1, 3
 	if run.Thorough() {
 		bigs, forkCodes = 4, 20
@@ -130,6 +133,7 @@ func realMain(run *hx.Run) {
 		current = fmt.Sprintf("big-block tree %d", k)
 		bigBlocks(run, rng.Fork(uint64(7000+k)), k)
 	}
+	run.Notes["t_big_s"] = time.Since(t0).Seconds()
 	for k := 0; k < forkCodes; k++ {
 		current = fmt.Sprintf("fork-divergent-code tree %d", k)
 		forkDivergentCode(run, rng.Fork(uint64(8000+k)), k)
